@@ -6,6 +6,11 @@
 (*   "lookup":S,"lookupaddrok":B}                                            *)
 (*   source/addrok: source TXT of the reply and whether every address record  *)
 (*   carries exactly the address that source holds; lookup*: Lookup() result  *)
+(*  "fault": "none", or the transport fault (a failed WriteMsg / WriteTo /     *)
+(*   SetWriteDeadline of the server) that hit this query.  One event per       *)
+(*   message that REACHED the client; a query that a fault hit may also have   *)
+(*   reached the client with nothing: rcode "silent" (the client repeats it).  *)
+(*   Whatever does reach the client is judged as without fault.                *)
 (***************************************************************************)
 EXTENDS Resolver
 
@@ -18,8 +23,9 @@ QueryOK ==
   LET want == Answer(Ev.kind, Ev.tld, Ev.type, Ev.class, Ev.inres, Ev.infr, Ev.inmap)
       wantLookup == Lookup(Ev.kind, Ev.inres, Ev.infr, Ev.inmap)
   IN /\ ~Ev.panic
-     /\ IF want = "nxdomain" THEN Ev.rcode = "nxdomain"
-        ELSE Ev.rcode = "ok" /\ Ev.source = want /\ Ev.addrok
+     /\ \/ Ev.fault # "none" /\ Ev.rcode = "silent"
+        \/ IF want = "nxdomain" THEN Ev.rcode = "nxdomain"
+           ELSE Ev.rcode = "ok" /\ Ev.source = want /\ Ev.addrok
      /\ (Ev.tld = "myco") => (Ev.lookup = (IF wantLookup = "none" THEN "" ELSE wantLookup)
                               /\ (Answered(wantLookup) => Ev.lookupaddrok))
 
